@@ -17,6 +17,7 @@ CLAIMED = {
  "C12": ("exploration", "6.12", "every permissioned message of both modules sent by current / past role holders, authorities and strangers across role rotations, executor-list and parameter changes, MsgExecuteMessages batches and bridge-info re-pointing attempts; access-table oracle for soundness and completeness, atomic rejection", "lock-step access-table model over real BaseApp nodes (L1 and L2)"),
  "C04": ("exploration", "6.4", "two-chain simulation with a faithful executor whose trees are built only from L2 withdrawal events by the independent prover: amounts up to and beyond 64 bits, several denoms, upper-case recipients, trees of 1-33 leaves, refunds of failed deposits, withdrawals performed inside hooks, challenger deletions; every recorded claimable withdrawal must be finalised exactly once within the drain budget", "whole-bridge deterministic simulation with bounded-liveness drain"),
  "C08": ("exploration", "6.8", "whole-bridge simulation (real L1 + L2 nodes, users, racing executors, proposer, challenger, claimers) over a lossy / duplicating / delaying / reordering / partitioning network with crash-restart of either node; the peg equation is evaluated from parsed events and public queries after every block of either chain, then a fault-free drain must pay every claim exactly once and restore escrow = supply and combined holdings", "whole-bridge deterministic simulation with network + crash fault injection and cross-chain conservation oracle"),
+ "C15": ("exploration", "6.15", "a simulated L1 validator set signs real vote extensions; a Byzantine relayer assembles extended commits (dropped / duplicated / forged / mis-bound / replayed votes, unknown validators, stale timestamps and heights) and an IBC relayer refreshes the recorded set (higher / equal / lower heights, foreign and unset client ids); an independent recount decides which price changes are admissible", "seeded Byzantine-input simulation against an independent quorum recount"),
 }
 PENDING = {}
 NA = {"C17": "pure functions of their byte inputs (hash/derivation formats, no aliasing): no schedule, clock, fault, crash point or history to simulate; deciding it is differential input testing, not deterministic simulation (DESIGN 6.17). Format agreement on system-reachable inputs is observed as a by-product by C03/C04/C08 through the independent prover."}
